@@ -378,7 +378,10 @@ func handleZDIFFSTORE(params internal.HandlerFuncParams) ([]byte, error) {
 
 	// Extract base set
 	if !keyExists[keys.ReadKeys[0]] {
-		// If base set does not exist, return 0
+		// If base set does not exist, the difference is empty: store that and return 0
+		if err = clearDestination(params, destination); err != nil {
+			return nil, err
+		}
 		return []byte(":0\r\n"), nil
 	}
 
@@ -541,6 +544,10 @@ func handleZINTERSTORE(params internal.HandlerFuncParams) ([]byte, error) {
 	values := params.GetValues(params.Context, keys)
 	for i := 0; i < len(keys); i++ {
 		if !keyExists[keys[i]] {
+			// The intersection with a missing set is empty: store that and return 0
+			if err = clearDestination(params, destination); err != nil {
+				return nil, err
+			}
 			return []byte(":0\r\n"), nil
 		}
 		set, ok := values[keys[i]].(*SortedSet)
@@ -1221,7 +1228,11 @@ func handleZRANGESTORE(params internal.HandlerFuncParams) ([]byte, error) {
 	}
 
 	if !sourceExists {
-		return []byte("*0\r\n"), nil
+		// Nothing to select from: the (empty) result replaces the destination and its cardinality is 0
+		if err = clearDestination(params, destination); err != nil {
+			return nil, err
+		}
+		return []byte(":0\r\n"), nil
 	}
 
 	set, ok := params.GetValues(params.Context, []string{source})[source].(*SortedSet)
@@ -1230,6 +1241,9 @@ func handleZRANGESTORE(params internal.HandlerFuncParams) ([]byte, error) {
 	}
 
 	if offset > set.Cardinality() {
+		if err = clearDestination(params, destination); err != nil {
+			return nil, err
+		}
 		return []byte(":0\r\n"), nil
 	}
 	if count < 0 {
